@@ -11,10 +11,10 @@ from common import (NCPU, HarnessError, Rng, cleanup_run_dir, cli_bin, derive, l
                     short_hash, sim_bin, write_evidence, write_replay)
 from procsim import base_env, run_child, split_driver_output
 
-ROUTES = ["lib", "cli", "cli_trace", "compile_file", "compile_dir", "compile_exit"]
+ROUTES = ["lib", "cli", "cli_trace", "cli_derives", "compile_file", "compile_dir", "compile_exit"]
 # --ast-only / --railroad stop before code generation: only reading and parsing failures concern them
 CLI_PARSE_ONLY_ROUTES = ["cli_ast", "cli_railroad"]
-IO_ROUTES = ["cli", "cli_trace", "cli_ast", "cli_railroad", "compile_file", "compile_dir", "compile_exit"]
+IO_ROUTES = ["cli", "cli_trace", "cli_derives", "cli_ast", "cli_railroad", "compile_file", "compile_dir", "compile_exit"]
 COMPILE_ROUTES = ["compile_file", "compile_dir", "compile_exit"]
 
 VALID = b"@export\nTop = items:Item {',' items:Item} $;\nItem = @:Num | @:Word;\n@string\n@no_skip_ws\nNum = {'0'..'9'}+;\n@string\n@no_skip_ws\nWord = {'a'..'z'}+;\n"
@@ -61,6 +61,12 @@ RESTRICTIONS = [
     ("memoize_leftrec_without_clone", "@memoize\n@leftrec\nZz1 = Zz1 'a' | 'a';\n", {"derives": ["Debug", "PartialEq"]}),
     ("nonascii_insensitive_in_closure", "Zz1 = {'a' | i\"x\u0151\"};\n", {}),
     ("nonascii_insensitive_in_lookahead", "Zz1 = !i'\u00df' char;\n", {}),
+    ("nonascii_insensitive_hex_escape", "Zz1 = i'\\xe9';\n", {}),
+    ("nonascii_insensitive_hex_escape_in_string", "Zz1 = i\"caf\\xe9\";\n", {}),
+    ("nonascii_insensitive_u4_escape", "Zz1 = i'x\\u00e9';\n", {}),
+    ("nonascii_insensitive_braced_escape", "Zz1 = i'\\u{e9}';\n", {}),
+    ("nonascii_insensitive_U8_escape", "Zz1 = i'\\U000000e9y';\n", {}),
+    ("nonascii_insensitive_escape_not_first", "Zz1 = i'abc\\u{151}';\n", {}),
     ("nonascii_insensitive_literal", "Zz1 = i'\u00e9';\n", {}),
     ("nonascii_insensitive_string", "Zz1 = i'stra\u00dfe';\n", {}),
     ("invalid_codepoint_surrogate", "Zz1 = '\\u{D800}';\n", {}),
@@ -96,6 +102,15 @@ SYNTAX = [
     ("syntax_char_rule_with_sequence", "@char\nZz1 = 'a' 'b';\n"),
     ("syntax_extern_with_body", "@extern(zz_f)\nZz1 = 'a';\n"),
     ("syntax_short_unicode_escape", "Zz1 = '\\u12';\n"),
+    ("syntax_multibyte_at_error", "Zz1 = '\u0151\u2192' \u0151\u0171;\n"),
+    ("syntax_error_at_eof_without_newline", "Zz1 = 'a' |"),
+    ("syntax_very_long_line", "Zz1 = " + "'a' " * 5000 + ";;\n"),
+    ("syntax_crlf_lines", "Zz1 = 'a';\r\n;;\r\n"),
+    ("syntax_only_garbage", "%%%%"),
+    ("syntax_error_on_empty_line", "\n\n\n=\n"),
+    ("syntax_tab_indented", "\t\tZz1 = ('a';\n"),
+    ("syntax_nul_byte", "Zz1 = 'a';\x00\n"),
+    ("syntax_multibyte_before_error_column", "Zz1 = '\u00e9\u00e9\u00e9\u00e9' ) 'x';\n"),
 ]
 
 # classes the property's rationale names as reaching panic!/unbounded recursion instead of an error
@@ -126,6 +141,14 @@ RATIONALE = [
     ("extern_return_type_generic", "@extern(zz_f -> Vec<u8>)\nZz1;\n", {}),
     ("extern_return_type_reference", "@extern(zz_f -> &str)\nZz1;\n", {}),
     ("extern_function_super_path", "@extern(super::zz_f)\nZz1;\n", {}),
+    ("include_cycle_first_of_duplicate_rules", "Zz1 = >Zz2;\nZz2 = >Zz1;\nZz2 = 'a';\n", {}),
+    ("include_cycle_last_of_duplicate_rules", "Zz1 = >Zz2;\nZz2 = 'a';\nZz2 = >Zz1;\n", {}),
+    ("include_cycle_self_duplicate", "Zz1 = >Zz1;\nZz1 = 'a';\n", {}),
+    ("include_cycle_long_chain", "Zz1 = >Zz2;\nZz2 = 'a' [>Zz3];\nZz3 = {>Zz4};\nZz4 = 'b' | >Zz5;\nZz5 = !>Zz1 'c';\n", {}),
+    ("duplicate_rule_names", "Zz1 = 'a';\nZz1 = 'b';\n", {}),
+    ("duplicate_rule_name_char_and_normal", "Zz1 = 'a';\n@char\nZz1 = 'b';\n", {}),
+    ("rule_referencing_itself_only", "Zz1 = Zz1;\n", {}),
+    ("field_of_missing_rule", "Zz1 = x:ZzNope;\n", {}),
     ("derive_is_a_path", "Zz1 = 'a';\n", {"derives": ["Debug", "Clone", "serde::Serialize"]}),
     ("derive_with_generics", "Zz1 = 'a';\n", {"derives": ["Debug", "PartialEq<u8>"]}),
     ("derive_starts_with_digit", "Zz1 = 'a';\n", {"derives": ["Debug", "1"]}),
@@ -204,6 +227,19 @@ def execute(cell, d, env, entropy):
         os.symlink(os.path.join(d, "nowhere.ebnf"), gpath)
     elif s == "symlink_loop":
         os.symlink(gpath, gpath)
+    elif s in ("nested_invalid", "nested_unreadable_dir", "nested_dangling"):
+        with open(gpath, "wb") as f:
+            f.write(VALID)
+        deep = os.path.join(d, "src", "deep", "er")
+        os.makedirs(deep)
+        os.makedirs(os.path.join(d, "src", "locked"))
+        with open(os.path.join(d, "src", "locked", "ok.ebnf"), "wb") as f:
+            f.write(VALID)
+        if s == "nested_invalid":
+            with open(os.path.join(deep, "bad.ebnf"), "wb") as f:
+                f.write(cell.grammar)
+        elif s == "nested_dangling":
+            os.symlink(os.path.join(d, "nowhere.ebnf"), os.path.join(deep, "gone.ebnf"))
     else:
         with open(gpath, "wb") as f:
             f.write(cell.grammar)
@@ -222,7 +258,8 @@ def execute(cell, d, env, entropy):
     if cell.route == "lib":
         argv = [sim_bin("driver"), "gen", gpath] + sa
     elif cell.route.startswith("cli"):
-        flag = {"cli": [], "cli_trace": ["--trace"], "cli_ast": ["--ast-only"], "cli_railroad": ["--railroad"]}[cell.route]
+        flag = {"cli": [], "cli_trace": ["--trace"], "cli_ast": ["--ast-only"], "cli_railroad": ["--railroad"],
+                "cli_derives": ["-d", "Debug", "-d", "Clone"]}[cell.route]
         argv = [cli_bin()] + flag + sa + [gpath]
     elif cell.route == "compile_dir":
         argv = [sim_bin("driver"), "compile", "--dir", os.path.join(d, "src")] + sa
@@ -236,6 +273,13 @@ def execute(cell, d, env, entropy):
     if cell.rustfmt != "present":
         e["PATH"] = "/usr/bin:/bin"
     c = run_child(argv, d, e, entropy=entropy, faults=faults, shim_log=shim_log)
+    if cell.route.startswith("compile") and cell.kind in ("restriction", "syntax", "rationale", "io_read") and not c.crashed():
+        # the same run once more in the same directory: whatever the first run left behind must not turn a failure into a success
+        c2 = run_child(argv, d, e, entropy=entropy, faults=faults, shim_log=shim_log)
+        first_failed = c.rc != 0 or b"\nErr" in c.out[:200]
+        second_failed = c2.rc != 0 or b"\nErr" in c2.out[:200]
+        if first_failed and not second_failed:
+            c = c2
     fired = [l for l in c.shim_log if "->" in l and not l.startswith("clock") and not l.startswith("time") and not l.startswith("gettimeofday")]
     info = {"status": c.status_word(), "fired": fired, "dest": None}
     if c.crashed():
@@ -345,6 +389,13 @@ def build_cells(seed, tier, pool):
         cells.append(Cell("grammar_read_EIO_second", r, "fail", "io_read", big, faults="read:{G}:2:e5"))
         cells.append(Cell("grammar_read_EINTR_retried", r, "same_as_control", "io_transparent", big, faults="read:{G}:1:e4"))
         cells.append(Cell("grammar_short_reads", r, "same_as_control", "io_transparent", big, faults="read:{G}:0:short%d" % rng.range(1, 97)))
+    # directory mode: failures below the top level must surface as well
+    cells.append(Cell("nested_grammar_syntax_error", "compile_dir", "fail", "io_read", b"Zz1 = ('a' ;\n", setup="nested_invalid"))
+    cells.append(Cell("nested_grammar_restriction", "compile_dir", "fail", "io_read", b"@export\n@string\nZz1 = 'a';\n", setup="nested_invalid"))
+    cells.append(Cell("nested_grammar_invalid_utf8", "compile_dir", "fail", "io_read", b"Zz1 = 'a';\n# \xff\n", setup="nested_invalid"))
+    cells.append(Cell("nested_grammar_dangling_symlink", "compile_dir", "fail", "io_read", setup="nested_dangling"))
+    cells.append(Cell("nested_directory_unreadable", "compile_dir", "fail", "io_read", setup="nested_unreadable_dir", faults="open:/src/locked:0:e13"))
+    cells.append(Cell("top_directory_unreadable", "compile_dir", "fail", "io_read", VALID, faults="open:/src:1:e13"))
     # I/O faults on the destination
     for r in COMPILE_ROUTES:
         cells.append(Cell("dest_is_directory", r, "fail", "io_write", VALID, dest_setup="dest_is_dir"))
@@ -371,6 +422,8 @@ def build_cells(seed, tier, pool):
                 for r in ROUTES:
                     if r.startswith("cli") and settings.get("derives") == []:
                         continue  # the CLI cannot express an empty derive set
+                    if r == "cli_derives" and settings.get("derives") is not None:
+                        continue
                     # restrictions must be rejected; the rationale classes must be answered (code or error), not crash
                     cells.append(Cell(fid + suffix, r, "fail" if kind == "restriction" else "nocrash", kind, g, settings))
     for fid, text in SYNTAX:
